@@ -255,3 +255,33 @@ Definition level_nodes_c (n L : nat) (f : cfun) : nat :=
 (** inner nodes of all levels + the single terminal *)
 Definition canon_size_bcdd (n : nat) (f : cfun) : N :=
   N.of_nat (sum_upto n (fun L => level_nodes_c n L f) + 1).
+
+(** ** The textbook count, ZBDD kind: sub-families with a non-empty "then" part
+
+    A ZBDD node of level [L] exists for a sub-family (the levels above [L]
+    fixed) iff some member contains [L], i.e. the then-cofactor table is not
+    all-false.  The Base terminal is reachable iff the family is non-empty;
+    the Empty terminal iff the family is empty or some node's else-part is. *)
+
+Definition any_true (t : list bool) : bool := existsb (fun b : bool => b) t.
+
+Definition hi_nonempty (pr : list bool * list bool) : bool := any_true (fst pr).
+
+Definition level_nodes_z (n L : nat) (f : cfun) : nat :=
+  length (dedup pair_eqb (filter hi_nonempty (subpairs 0 L (n - S L) f (fun _ => 0)))).
+
+(** some node of level [L] has an empty else-part *)
+Definition lo_empty_at (n L : nat) (f : cfun) : bool :=
+  existsb (fun pr => hi_nonempty pr && negb (any_true (snd pr))) (subpairs 0 L (n - S L) f (fun _ => 0)).
+
+Fixpoint exists_upto (n : nat) (g : nat -> bool) : bool :=
+  match n with
+  | O => false
+  | S k => exists_upto k g || g k
+  end.
+
+Definition canon_size_zbdd (n : nat) (f : cfun) : N :=
+  let nonempty := any_true (table 0 n f (fun _ => 0)) in
+  N.of_nat (sum_upto n (fun L => level_nodes_z n L f)
+            + (if nonempty then 1 else 0)
+            + (if negb nonempty || exists_upto n (fun L => lo_empty_at n L f) then 1 else 0)).
